@@ -888,6 +888,10 @@ def c16(run):
             run.report("settable limit: explicit sets issued at once were delivered as %s, the listener was last told %s but EstimatedLimit reports %s" % (
                 lg.get("delivered"), lg.get("last"), lg.get("est")), {"reject": rj, "rerun": "bin/check C16"}, {"algo": "settable", "class": "notify-concurrent"})
             continue
+        if lg.get("ev") == "Inside":
+            run.report("settable limit (%s): a listener reading the estimate back while it was being notified saw (delivered, estimate) = %s" % (
+                lg.get("wrap"), lg.get("pairs")), {"reject": rj, "rerun": "bin/check C16"}, {"algo": "settable", "class": "notify-inside", "wrap": lg.get("wrap")})
+            continue
         if rj["class"] != "notify" or rj["trace"] in seen:
             continue
         seen.add(rj["trace"])
@@ -897,12 +901,6 @@ def c16(run):
         cfg = tr[0]["cfg"] if tr else {}
         run.report("%s limit (%s): step %d of recorded sequence %d rejected by the contract (%s)" % (cfg.get("algo"), cfg.get("wrap"), rj["i"], rj["trace"], rj["why"]),
                    {"config": cfg, "sequence": tr[-30:], "reject": rj, "rerun": "VERIF_SEED=%d bin/check C16" % run.seed}, {"algo": cfg.get("algo"), "class": "notify"})
-    # design level: store and notify as one critical section (what every implementation does on this tree); storing before the
-    # lock (SettableLimit as delivered) or notifying after it (a seeded change) lets the last value delivered differ for good
-    ncfg = 'CONSTANTS Procs = {1, 2, 3} Variant = "%s"\nSPECIFICATION Spec\nINVARIANT LastIsValue\nCHECK_DEADLOCK FALSE\n'
-    run.mc("Notify", "n_atomic.cfg", cfg_text=ncfg % "atomic", label="mc:Notify/atomic")
-    run.neg("Notify", "n_storefirst.cfg", cfg_text=ncfg % "storefirst", label="neg:Notify/store-before-lock")
-    run.neg("Notify", "n_notifyafter.cfg", cfg_text=ncfg % "notifyafter", label="neg:Notify/notify-after-unlock")
     # design level: store and notify as one critical section (what every implementation does on this tree); storing before the
     # lock (SettableLimit as delivered) or notifying after it (a seeded change) lets the last value delivered differ for good
     ncfg = 'CONSTANTS Procs = {1, 2, 3} Variant = "%s"\nSPECIFICATION Spec\nINVARIANT LastIsValue\nCHECK_DEADLOCK FALSE\n'
